@@ -154,14 +154,17 @@ def compact(h, upto=None):
 
 
 def run_world_property(out, binp, pid, pred, profiles, facets, sig, extra_head="", suite="world",
-                       steps_quick=30, steps_thorough=60, known_extra=None):
+                       steps_quick=30, steps_thorough=60, known_extra=None, gen_fn=None):
     """profiles: list of (profile, n_quick, n_thorough)."""
     thorough = vlib.tier() == "thorough"
     all_h = []
     dist = {}
     for prof, nq, nt in profiles:
         n = nt if thorough else nq
-        hs, errs = generate(binp, prof, n, steps_thorough if thorough else steps_quick, vlib.seed(), pid + "_" + prof, suite=suite)
+        if gen_fn:
+            hs, errs = gen_fn(binp, prof, thorough)
+        else:
+            hs, errs = generate(binp, prof, n, steps_thorough if thorough else steps_quick, vlib.seed(), pid + "_" + prof, suite=suite)
         for e in errs:
             out.infra.append("harness %s/%s failed: %s" % (suite, prof, e))
         for h in hs:
@@ -274,6 +277,8 @@ def generic_replay(out, path, prelude, pid, pred, suite="world", extra_head=""):
 class WorldProp:
     """a property module in five lines"""
 
+    gen_fn = None
+
     def __init__(self, pid, pred, profiles, facets, suite="world", extra_head="", steps_quick=30, steps_thorough=60):
         self.pid, self.pred, self.profiles, self.facets = pid, pred, profiles, set(facets)
         self.suite, self.extra_head = suite, extra_head
@@ -288,7 +293,7 @@ class WorldProp:
             return
         return run_world_property(out, binp, self.pid, self.pred, self.profiles, self.facets, self.sig,
                                   extra_head=self.extra_head, suite=self.suite, steps_quick=self.steps_quick,
-                                  steps_thorough=self.steps_thorough)
+                                  steps_thorough=self.steps_thorough, gen_fn=self.gen_fn)
 
     def replay(self, out, path, prelude):
         return generic_replay(out, path, prelude, self.pid, self.pred, suite=self.suite, extra_head=self.extra_head)
